@@ -5,10 +5,13 @@ import (
 	"encoding/hex"
 	"fmt"
 	"sort"
+	"strings"
 	"time"
 
 	abci "github.com/cometbft/cometbft/abci/types"
 	sdk "github.com/cosmos/cosmos-sdk/types"
+	"github.com/cosmos/cosmos-sdk/x/params"
+	paramproposal "github.com/cosmos/cosmos-sdk/x/params/types/proposal"
 
 	"github.com/comdex-official/comdex/app/wasm/bindings"
 	"github.com/comdex-official/comdex/x/auction"
@@ -112,6 +115,29 @@ func (f *Fix) lendPos(e *sim.Env, u sdk.AccAddress, asset uint64) lendtypes.Lend
 		l.AvailableToBorrow, l.AmountIn = sdk.ZeroInt(), sdk.NewCoin("uatom", sdk.ZeroInt())
 	}
 	return l
+}
+
+// pairOf / debtDenom: the lend pair and debt denom of the position shape (same-pool CMDX->CMST, cross-pool CMDX->USDC).
+func (f *Fix) pairOf(prod string) uint64 {
+	if prod == "cross" {
+		return f.PairCross
+	}
+	return f.PairCmdxCmst
+}
+
+func (f *Fix) debtDenom(prod string) string {
+	if prod == "cross" {
+		return "uusdc"
+	}
+	return "ucmst"
+}
+
+func (f *Fix) borrowPosP(e *sim.Env, u sdk.AccAddress, prod string) lendtypes.BorrowAsset {
+	b, found := e.App.LendKeeper.GetBorrow(e.Ctx, f.borrowOf(e, u, f.pairOf(prod)))
+	if !found {
+		b.AmountIn, b.AmountOut, b.InterestAccumulated = sdk.NewCoin("uccmdx", sdk.ZeroInt()), sdk.NewCoin(f.debtDenom(prod), sdk.ZeroInt()), sdk.ZeroDec()
+	}
+	return b
 }
 
 func (f *Fix) borrowPos(e *sim.Env, u sdk.AccAddress) lendtypes.BorrowAsset {
@@ -268,16 +294,16 @@ var builders = map[string]builder{
 		return lendtypes.NewMsgBorrowAlternate(s.String(), f.ATOM, f.Pool, coin("uatom", 10*unit), f.PairAtomCmst, false, coin("ucmst", 20*unit), f.AppCommodo)
 	},
 	"lend.DepositBorrow": func(f *Fix, e *sim.Env, s, h sdk.AccAddress, prod string, ax Ax) sdk.Msg {
-		return lendtypes.NewMsgDepositBorrow(s.String(), f.borrowOf(e, h, f.PairCmdxCmst), sdk.NewCoin("uccmdx", ax.amount(10*unit, f.borrowPos(e, h).AmountIn.Amount)))
+		return lendtypes.NewMsgDepositBorrow(s.String(), f.borrowOf(e, h, f.pairOf(prod)), sdk.NewCoin("uccmdx", ax.amount(10*unit, f.borrowPosP(e, h, prod).AmountIn.Amount)))
 	},
 	"lend.Draw": func(f *Fix, e *sim.Env, s, h sdk.AccAddress, prod string, ax Ax) sdk.Msg {
-		return lendtypes.NewMsgDraw(s.String(), f.borrowOf(e, h, f.PairCmdxCmst), sdk.NewCoin("ucmst", ax.amount(5*unit, f.borrowPos(e, h).AmountOut.Amount)))
+		return lendtypes.NewMsgDraw(s.String(), f.borrowOf(e, h, f.pairOf(prod)), sdk.NewCoin(f.debtDenom(prod), ax.amount(5*unit, f.borrowPosP(e, h, prod).AmountOut.Amount)))
 	},
 	"lend.Repay": func(f *Fix, e *sim.Env, s, h sdk.AccAddress, prod string, ax Ax) sdk.Msg {
-		return lendtypes.NewMsgRepay(s.String(), f.borrowOf(e, h, f.PairCmdxCmst), sdk.NewCoin("ucmst", ax.amount(5*unit, f.borrowPos(e, h).AmountOut.Amount.Add(f.borrowPos(e, h).InterestAccumulated.TruncateInt()))))
+		return lendtypes.NewMsgRepay(s.String(), f.borrowOf(e, h, f.pairOf(prod)), sdk.NewCoin(f.debtDenom(prod), ax.amount(5*unit, f.borrowPosP(e, h, prod).AmountOut.Amount.Add(f.borrowPosP(e, h, prod).InterestAccumulated.TruncateInt()))))
 	},
 	"lend.CloseBorrow": func(f *Fix, e *sim.Env, s, h sdk.AccAddress, prod string, ax Ax) sdk.Msg {
-		return lendtypes.NewMsgCloseBorrow(s.String(), f.borrowOf(e, h, f.PairCmdxCmst))
+		return lendtypes.NewMsgCloseBorrow(s.String(), f.borrowOf(e, h, f.pairOf(prod)))
 	},
 	"lend.RepayWithdraw": func(f *Fix, e *sim.Env, s, h sdk.AccAddress, prod string, ax Ax) sdk.Msg {
 		return lendtypes.NewMsgRepayWithdraw(s.String(), f.borrowOf(e, h, f.PairCmdxCmst))
@@ -297,6 +323,14 @@ var builders = map[string]builder{
 			}
 		}
 		return &auctionsV2types.MsgPlaceMarketBidRequest{AuctionId: id, Bidder: s.String(), Amount: coin("ucmst", 10*unit)}
+	},
+	"liquidity.LimitOrder": func(f *Fix, e *sim.Env, s, h sdk.AccAddress, prod string, ax Ax) sdk.Msg {
+		offer := coin("ucmdx", 3*unit)
+		offer = offer.AddAmount(sdk.NewDecFromInt(offer.Amount).Mul(d("0.003")).RoundInt())
+		return liquiditytypes.NewMsgLimitOrder(f.AppCswap, s, f.LPair, liquiditytypes.OrderDirectionSell, offer, "ucmst", d("2.17"), i(3*unit), 12*time.Hour)
+	},
+	"liquidity.MMOrder": func(f *Fix, e *sim.Env, s, h sdk.AccAddress, prod string, ax Ax) sdk.Msg {
+		return liquiditytypes.NewMsgMMOrder(f.AppCswap, s, f.LPair, d("2.19"), d("2.16"), i(4*unit), d("1.85"), d("1.82"), i(4*unit), 12*time.Hour)
 	},
 	// ---- liquidity
 	"liquidity.CancelOrder": func(f *Fix, e *sim.Env, s, h sdk.AccAddress, prod string, ax Ax) sdk.Msg {
@@ -356,6 +390,17 @@ func (f *Fix) prepCtl(e *sim.Env, h string) {
 
 // roleAsset maps the price roles of a control cell to asset ids.
 func (f *Fix) roleAsset(h, prod, role string) uint64 {
+	if prod == "cross" {
+		switch role {
+		case "in":
+			return f.CMDX
+		case "out":
+			return f.USDC
+		case "t1":
+			return f.CMST
+		}
+		return f.ATOM
+	}
 	switch h {
 	case "lend.Lend", "lend.Deposit", "lend.Withdraw", "lend.CloseLend", "lend.Borrow", "lend.BorrowAlternate":
 		if role == "in" {
@@ -391,6 +436,8 @@ func (f *Fix) appID(name string) uint64 {
 		return f.AppHarbor
 	case "commodo":
 		return f.AppCommodo
+	case "twin":
+		return f.AppTwin
 	}
 	return f.AppCswap
 }
@@ -405,6 +452,9 @@ func (f *Fix) ApplyControls(e *sim.Env, app uint64, breaker bool, esm string) er
 		if app == f.AppCommodo {
 			gov = "ugovc"
 		}
+		if app == f.AppTwin {
+			gov = "ugovt"
+		}
 		if r := e.Deliver(esmtypes.NewMsgDeposit(f.LP.String(), app, coin(gov, 1000*unit))); !r.OK {
 			return fmt.Errorf("esm deposit: %s", r.Err)
 		}
@@ -416,8 +466,8 @@ func (f *Fix) ApplyControls(e *sim.Env, app uint64, breaker bool, esm string) er
 			// same block as MsgExecuteESM: the shutdown hook has not run, there is no price snapshot
 		case "blocked":
 			// blocks pass, but the snapshot cannot complete: the feed of an oracle-priced asset that none of the matrix'
-			// price roles consults (USDC) is inactive
-			PriceActive(e, f.USDC, false)
+			// price roles consults (FEED) is inactive
+			PriceActive(e, f.FEED, false)
 			for n := 0; n < 2; n++ {
 				if br := e.NextBlock(6 * time.Second); br.Panic {
 					return fmt.Errorf("block after esm: %s", br.Err)
@@ -441,6 +491,73 @@ func (f *Fix) ApplyControls(e *sim.Env, app uint64, breaker bool, esm string) er
 	return nil
 }
 
+// MakeHole removes an OLDER position of the kind the opening message creates, by its owner (the owner's positions are the
+// oldest of the fixture), so that the id sequence of that kind has a hole below live positions. Reports whether it did.
+func (f *Fix) MakeHole(e *sim.Env, msg string) bool {
+	none := Ax{"small", "home"}
+	var ms []sdk.Msg
+	switch msg {
+	case "vault.MsgCreate":
+		ms = append(ms, builders["vault.MsgClose"](f, e, f.Owner, f.Owner, "oracle", none))
+	case "locker.MsgCreateLocker":
+		ms = append(ms, builders["locker.MsgCloseLocker"](f, e, f.Owner, f.Owner, "na", none))
+	case "lend.Lend":
+		ms = append(ms, builders["lend.CloseLend"](f, e, f.Owner, f.Owner, "na", none))
+	case "lend.BorrowAlternate":
+		ms = append(ms, builders["lend.CloseBorrow"](f, e, f.Owner, f.Owner, "na", none), builders["lend.CloseLend"](f, e, f.Owner, f.Owner, "na", none))
+	case "liquidity.LimitOrder", "liquidity.MMOrder":
+		ms = append(ms, builders["liquidity.CancelOrder"](f, e, f.Owner, f.Owner, "na", none), builders["liquidity.CancelMMOrder"](f, e, f.Owner, f.Owner, "na", none))
+	case "auctionsV2.MsgDepositLimitBid":
+		ms = append(ms, builders["auctionsV2.MsgCancelLimitBid"](f, e, f.Owner, f.Owner, "na", none))
+	}
+	ok := false
+	for _, m := range ms {
+		if e.Deliver(m).OK {
+			ok = true
+		}
+	}
+	return ok
+}
+
+// HoldersView = combined view of every holder's positions and balances.
+func (f *Fix) HoldersView(e *sim.Env) string {
+	return hashStrings([]string{f.VictimView(e, f.Owner), f.VictimView(e, f.Other), f.VictimView(e, f.Risk), f.VictimView(e, f.RiskTwin)})
+}
+
+// MakeHoley builds the "holey" prepared state: for every kind an older position is removed by its owner and a third
+// party opens a new one afterwards; one block passes.
+func (f *Fix) MakeHoley(e *sim.Env) []string {
+	ops := []string{}
+	for _, msg := range []string{"vault.MsgCreate", "locker.MsgCreateLocker", "lend.Lend", "liquidity.LimitOrder", "liquidity.MMOrder", "auctionsV2.MsgDepositLimitBid"} {
+		if f.MakeHole(e, msg) {
+			ops = append(ops, "hole:"+msg)
+		}
+		if e.Deliver(builders[msg](f, e, f.Newbie, f.Newbie, "oracle", Ax{"small", "home"})).OK {
+			ops = append(ops, "open:"+msg)
+		}
+	}
+	if br := e.NextBlock(6 * time.Second); br.Panic {
+		panic("holey block panicked: " + br.Err)
+	}
+	return ops
+}
+
+// SetAdminState puts the esm admin parameter into the given state by executing a parameter-change proposal.
+func (f *Fix) SetAdminState(e *sim.Env, adm string) error {
+	var val string
+	switch adm {
+	case "configured":
+		return nil
+	case "rotated":
+		val = fmt.Sprintf("[%q]", sim.Addr("newadmin").String())
+	case "empty":
+		val = "[]"
+	}
+	h := params.NewParamChangeProposalHandler(e.App.ParamsKeeper)
+	return h(e.Ctx, &paramproposal.ParameterChangeProposal{Title: "esm admins", Description: "change the esm admin list",
+		Changes: []paramproposal.ParamChange{{Subspace: esmtypes.ModuleName, Key: string(esmtypes.KeyAdmin), Value: val}}})
+}
+
 // ---------------------------------------------------------------------------------------------------
 // projections
 
@@ -457,9 +574,8 @@ func hashStrings(xs []string) string {
 func (f *Fix) VictimView(e *sim.Env, u sdk.AccAddress) string {
 	var xs []string
 	a := e.App
-	for _, ep := range []uint64{f.EpCmdx, f.EpAtom} {
-		if id := f.vaultID(e, u, ep); id != 0 {
-			v, _ := a.VaultKeeper.GetVault(e.Ctx, id)
+	for _, v := range a.VaultKeeper.GetVaults(e.Ctx) { // every vault record of any app whose owner is u
+		if v.Owner == u.String() {
 			xs = append(xs, "vault:"+v.String())
 		}
 	}
@@ -525,14 +641,25 @@ func NewIn(pre, post map[string]bool) int64 {
 func (f *Fix) HookViewOf(e *sim.Env, app uint64) HookView {
 	a := e.App
 	v := HookView{SeizedID: map[string]bool{}, AucID: map[string]bool{}}
+	// a seized vault belongs to the app of its vault product, whatever app the sweep filed the locked vault under
+	ofApp := func(tag, extPair uint64, vaultKind bool) bool {
+		if tag == app {
+			return true
+		}
+		if !vaultKind {
+			return false
+		}
+		ep, found := a.AssetKeeper.GetPairsVault(e.Ctx, extPair)
+		return found && ep.AppId == app
+	}
 	for _, lv := range a.NewliqKeeper.GetLockedVaults(e.Ctx) {
-		if lv.AppId == app {
+		if ofApp(lv.AppId, lv.ExtendedPairId, lv.InitiatorType == "vault") {
 			v.Seized++
 			v.SeizedID[fmt.Sprintf("l2:%d", lv.LockedVaultId)] = true
 		}
 	}
 	for _, lv := range a.LiquidationKeeper.GetLockedVaults(e.Ctx) {
-		if lv.AppId == app {
+		if ofApp(lv.AppId, lv.ExtendedPairId, lv.GetBorrowMetaData() == nil) {
 			v.Seized++
 			v.SeizedID[fmt.Sprintf("l1:%d", lv.LockedVaultId)] = true
 		}
@@ -580,6 +707,14 @@ func (f *Fix) HookViewOf(e *sim.Env, app uint64) HookView {
 // ---------------------------------------------------------------------------------------------------
 // hooks
 
+// plainHook: the twin variants run the very same hook; only the controlled / judged app differs.
+func plainHook(hook string) string {
+	if hook == "app.block@twin" {
+		return "app.blockHarbor"
+	}
+	return strings.TrimSuffix(hook, "@twin")
+}
+
 func noPanic(fn func()) (panicked bool, msg string) {
 	defer func() {
 		if r := recover(); r != nil {
@@ -593,6 +728,7 @@ func noPanic(fn func()) (panicked bool, msg string) {
 // armHook prepares the trigger of a hook on the branch e (before the controls are applied).
 func (f *Fix) armHook(e *sim.Env, hook string) {
 	a := e.App
+	hook = plainHook(hook)
 	switch hook {
 	case "liqV2.sweepVault", "liqV2.sweepBorrow", "liqV1.sweepVault", "liqV1.sweepBorrow", "liqV2.msgInternalVault", "liqV2.msgInternalBorrow",
 		"liqV1.msgVault", "liqV1.msgBorrow", "app.blockCommodo":
@@ -623,6 +759,7 @@ func fundModule(e *sim.Env, module string, c sdk.Coin) {
 // runHook executes the hook (or liquidation message) on e.
 func (f *Fix) runHook(e *sim.Env, hook string) (res sim.Result) {
 	a := e.App
+	hook = plainHook(hook)
 	res.OK = true
 	var p bool
 	var ps string
